@@ -200,6 +200,8 @@ def probes(syn, key, val):
         elif re.match(r'^[a-z-]+' + re.escape(between), out) and not out.startswith('@'):
             return ('scope:section-yields-property', dict(actual=out))
     yield 'section', key, {'context': {'name': '@@section'}}, section
+    # ... and through a cache that a call in ANOTHER scope has filled first
+    yield 'section-after-other-scope', key, {'context': {'name': '@@section'}, '__primed_scope__': '@@property'}, section
 
     def prop_scope(out):
         if out.startswith('EXC:'):
@@ -210,6 +212,8 @@ def probes(syn, key, val):
         elif out and canon(out) == canon(c[1]):
             return ('scope:property-yields-raw', dict(actual=out))
     yield 'property', key, {'context': {'name': '@@property'}}, prop_scope
+    yield 'property-after-other-scope', key, {'context': {'name': '@@property'}, '__primed_scope__': '@@section'}, prop_scope
+    yield 'own-key-after-scoped-call', key, {'__primed_scope__': '@@section'}, eq(own, 'own-key-selects-other-snippet')
     # `+`-joined under a scope: each part resolves exactly as it does alone, whatever the order of the keys
     other = 'm' if c[0] == 'prop' else '@kf'
     scope = '@@property' if c[0] == 'prop' else '@@section'
@@ -224,6 +228,11 @@ def run_probe(syn, abbr, extra):
     cfg = {'type': 'stylesheet', 'syntax': syn, 'options': {'output.field': field}}
     extra = dict(extra)
     glob = extra.pop('__global__', None)
+    primed = extra.pop('__primed_scope__', None)
+    if primed:
+        cache = {}
+        ex(abbr, dict(cfg, cache=cache, context={'name': primed}))
+        cfg['cache'] = cache
     if extra.pop('__cached__', False):
         # through a cache that a call without the user-defined snippets has filled first
         cache = {}
